@@ -80,9 +80,36 @@ fn double_spellings(f: f64) -> Vec<String> {
 
 pub fn run(run: &mut Run) {
     let thorough = !run.quick();
-    let is = i64_boundary(true);
-    let us = u64_boundary(true);
-    let ds = doubles(thorough);
+    let mut is = i64_boundary(true);
+    let mut us = u64_boundary(true);
+    let mut ds = doubles(thorough);
+    if thorough {
+        // every bit pattern with one or two bits set (and its complement), in all three types
+        for a in 0..64u32 {
+            for c in a..64u32 {
+                let bits: u64 = (1u64 << a) | (1u64 << c);
+                for b in [bits, !bits] {
+                    if !us.contains(&b) {
+                        us.push(b);
+                    }
+                    if !is.contains(&(b as i64)) {
+                        is.push(b as i64);
+                    }
+                }
+            }
+        }
+        // doubles on an exponent x mantissa grid
+        for e in [0u64, 1, 2, 1021, 1022, 1023, 1024, 1054, 1055, 1074, 1075, 1076, 1085, 1086, 1087, 1088, 2045, 2046] {
+            for m in [0u64, 1, 1 << 51, (1 << 52) - 1, 0x5555555555555] {
+                for sgn in [0u64, 1] {
+                    let f = f64::from_bits((sgn << 63) | (e << 52) | m);
+                    if !ds.iter().any(|y| y.to_bits() == f.to_bits()) {
+                        ds.push(f);
+                    }
+                }
+            }
+        }
+    }
     let empty = Context::default();
 
     // ---------------- literals
